@@ -24,7 +24,11 @@ class _:
               "correlation_id": "int", "close_dlist": "Optional[Ref_Deferred]",
               "clients": "Optional[Dict[int, Ref_BrokerClientAPI]]", "_brokers": "Dict[int, BrokerMetadata]",
               "_endpoint_factory": ("Ref_EndpointFactory", False), "clientId": ("Any", False), "_retry_policy": ("Any", False),
-              "_bootstrap_hosts": ("List[Tuple[str, int]]", False)}
+              "_bootstrap_hosts": ("List[Tuple[str, int]]", False), "_clientIdBytes": ("bytes", False),
+              # cached topic view (C08 / C18): partition ids per topic, leader per partition, per-topic error
+              "topic_partitions": "Dict[str, List[int]]", "topic_errors": "Dict[str, int]",
+              "partition_meta": "Dict[TopicAndPartition, PartitionMetadata]",
+              "topics_to_brokers": "Dict[TopicAndPartition, Optional[BrokerMetadata]]"}
     invariant = {"timeout-positive": "self.timeout > 0",
                  # the table of broker clients is dropped by close() only, after the client has been marked closed
                  "clients-present-while-open": "self._closing or self.clients is not None"}
@@ -87,7 +91,9 @@ _RESET_ASSUMED = ["KafkaClient.reset_topic_metadata / reset_consumer_group_metad
                   "BrokerResponseError.raise_for_errno is modelled from the literal errnos table of afkak/common.py, "
                   "re-extracted on every run: code 0 returns, a listed code raises its class, any other a plain "
                   "BrokerResponseError"]
-method("reset_topic_metadata", "(%s, topic: str) -> None" % SELF, props=["C08"], trusted=True, modifies=[])
+TOPIC_CACHES = ["KafkaClient.topic_partitions", "KafkaClient.topic_errors", "KafkaClient.partition_meta", "KafkaClient.topics_to_brokers"]
+method("reset_topic_metadata", "(%s, topic: str) -> None" % SELF, props=["C08"], trusted=True, modifies=TOPIC_CACHES,
+       ensures={"topic-forgotten": "topic not in self.topic_partitions and topic not in self.topic_errors"})
 method("reset_consumer_group_metadata", "(%s, group: Optional[str]) -> None" % SELF, props=["C08"], trusted=True, modifies=[])
 
 method("_handle_responses",
@@ -190,3 +196,41 @@ method("_send_broker_unaware_request", "(%s, requestId: int, request: bytes) -> 
        checkpoints={"call:_make_request_to_broker#1": {"never-on-a-closed-client[C20]": "not self._closing"},
                     "call:_send_bootstrap_request#1": {"only-after-the-known-brokers[C07]": "not old(self._closing)"}},
        ensures={"refused-when-closed[C20]": "not old(self._closing)"})
+
+
+# ---- C04: version discovery - every ApiVersions request goes out under the correlation id its header carries -----------
+method("_handle_api_version_update", "(%s, resp: ApiVersionResponse) -> None" % SELF, props=["C04"], trusted=True,
+       modifies=["KafkaClient._api_versions", "KafkaClient._api_versions_zero"],
+       assumes=["KafkaClient._handle_api_version_update is represented by a trusted contract inside fetch_api_versions (it stores the "
+                "int 0 or a list in one attribute; the version choice that follows is exercised exhaustively by the api_discovery scenario)"])
+
+method("fetch_api_versions", "(%s) -> Ref_Deferred" % SELF, props=["C04"],
+       locals={"resp": "Optional[bytes]", "req": "bytes"},
+       requires=["0 <= self.correlation_id and self.correlation_id < 2147483648", "len(self._clientIdBytes) <= 32767"],
+       raises={"Exception": "True"},
+       loops={"while#1": dict(inv=["req == req_header(18, 0, requestId, self._clientIdBytes)", "0 <= api_version_failures"],
+                              decreases="3 - api_version_failures")},
+       checkpoints={"call:_send_broker_unaware_request#1": {
+           # the broker connection matches the reply by the id handed over separately: it must be the one in the header,
+           # on the first attempt and on every retry
+           "issued-under-the-id-in-its-header[C04]": "req == req_header(18, 0, requestId, self._clientIdBytes)"}})
+
+
+# ---- C18 / C08: the partition list handed to the partitioners is ascending ----------------------------------------------
+# ("over any window ... with an unchanged ASCENDING list of n partitions": Producer._next_partition passes
+# client.topic_partitions[topic] as it is; the hashed partitioner agrees with the Java client only on the ascending list)
+method("_update_brokers", "(%s, brokers: Any, remove: Any = False) -> None" % SELF, props=["C08"], trusted=True,
+       modifies=["KafkaClient.clients", "KafkaClient._brokers", "KafkaClient.close_dlist"],
+       assumes=["KafkaClient._update_brokers is represented by a trusted contract inside _merge_topic_metadata (exercised by the "
+                "metadata_merge scenario)"])
+
+method("_merge_topic_metadata",
+       "(%s, brokers: Dict[int, BrokerMetadata], topics: Dict[str, TopicMetadata], fetched_all_topics: bool) -> None" % SELF,
+       props=["C18", "C08"], raises={"KeyError": "True"},
+       loops={"for#1": dict(index="ti", inv=["True"]),
+              "for#1/for#1": dict(index="pi", inv=["topic in self.topic_partitions"],
+                                  heap_modifies=["KafkaClient.topic_partitions", "KafkaClient.partition_meta",
+                                                 "KafkaClient.topics_to_brokers"])},
+       checkpoints={"iteration-end:for#1": {
+           "partition-list-ascending[C18]": "implies(topic in self.topic_partitions, is_asc(self.topic_partitions[topic]))",
+           "topic-error-recorded[C08]": "topic in self.topic_errors and self.topic_errors[topic] == topics[topic].topic_error_code"}})
